@@ -889,20 +889,38 @@ theorem shapeNorm_seq_eq_tuple (ny nx : PyNum) (ky kx : Int) (hy : ny.val = ky) 
 theorem GBTiles.ctor_regular_base (g : AnyBox) (ty tx : Int) (t : GBTiles)
     (h : GBTiles.mk' g (.shape ty tx) = .ok t) :
     t.gbox = g ∧ ∃ r, t.tiles = .reg r ∧ r.baseY = g.ny ∧ r.baseX = g.nx ∧ r.tileY = ty ∧ r.tileX = tx := by
-  simp only [GBTiles.mk', roiTiles, Tiles.mk'] at h
-  split at h
-  · simp [Except.map] at h
-  · simp only [Except.map, Except.ok.injEq] at h
+  by_cases hz : ty = 0 ∨ tx = 0
+  · simp [GBTiles.mk', roiTiles, Tiles.mk', hz, Except.map] at h
+  · simp only [GBTiles.mk', roiTiles, Tiles.mk', hz, if_false, Except.map, AnyTiles.base, if_true,
+      Except.ok.injEq] at h
     subst h
     exact ⟨rfl, _, rfl, rfl, rfl, rfl, rfl⟩
 
-/-- `GeoboxTiles(box, (chunks_y, chunks_x))` never looks at the box's shape: the chunks need
-not add up to it (accepted silently by the code) -/
+/-- `GeoboxTiles(box, (chunks_y, chunks_x))`: the tiling itself is made of the chunks alone
+(`roi_tiles` does not look at the shape); since `fix: GeoboxTiles refuses chunk tuples that do
+not add up to the GeoBox shape` the constructor then REFUSES chunks whose sums are not the
+box's shape (`GBTiles.ctor_chunks_add_up`), so two boxes accepting the same chunks have the
+same shape -/
 theorem GBTiles.ctor_chunks_ignore_shape (g g' : AnyBox) (y x : List Int) (t t' : GBTiles)
     (h : GBTiles.mk' g (.chunks y x) = .ok t) (h' : GBTiles.mk' g' (.chunks y x) = .ok t') :
     t.tiles = t'.tiles := by
-  simp only [GBTiles.mk', roiTiles, Except.map, Except.ok.injEq] at h h'
+  simp only [GBTiles.mk', roiTiles] at h h'
+  split at h <;> split at h' <;> simp only [Except.ok.injEq, reduceCtorEq] at h h'
   subst h; subst h'; rfl
+
+/-- chunks are accepted exactly when they add up (in int32 arithmetic, as the code computes
+them) to the box's shape -/
+theorem GBTiles.ctor_chunks_add_up (g : AnyBox) (y x : List Int) :
+    (∃ t, GBTiles.mk' g (.chunks y x) = .ok t) ↔
+      (lastOff (VTiles.mk' y x).offY = g.ny ∧ lastOff (VTiles.mk' y x).offX = g.nx) := by
+  simp only [GBTiles.mk', roiTiles, AnyTiles.base, Prod.mk.injEq]
+  constructor
+  · rintro ⟨t, h⟩
+    split at h
+    · assumption
+    · cases h
+  · intro h
+    exact ⟨_, by rw [if_pos h]⟩
 
 /-- F6 never reached GeoboxTiles built through the constructor: even with the Tiles token
 *as it was* (no base shape), unequal regular GeoboxTiles over linear GeoBoxes had different
